@@ -110,7 +110,6 @@ Definition estep (g : eghost) (o : op) : option eghost :=
   | OShow w | OHide w | OFocus w | OSteal w _ | OExpose w | OGetRoot w | OBind w _ _ _ _ _ | OUnbind w _ | OGeom w =>
     if eusable g (idx w) then Some g else None
   | OFlush w => if Nat.eqb (idx w) O && eusable g O then Some g else None
-  | OMouse MDrag => None          (* the drag state machine is outside this discipline (C08_no_fault_events is partial there) *)
   | OKey | OMouse _ | ONop => Some g
   (* the library's frames (written into the trace by the dispatch functions only: in a script these two do nothing
      and are not recorded) *)
